@@ -6,7 +6,8 @@ use linfa::dataset::DatasetBase;
 use linfa::metrics::SilhouetteScore;
 use linfa::Float;
 use lvmc_core::{guarded, json};
-use ndarray::{Array1, Array2};
+use crate::layout::{hold1, hold2, L1, L1_ALL, L2, L2_ALL};
+use ndarray::{Array1, Array2, ArrayView1, ArrayView2};
 
 fn dist(a: &[f64], b: &[f64]) -> f64 {
     a.iter().zip(b).map(|(x, y)| (x - y) * (x - y)).sum::<f64>().sqrt()
@@ -50,40 +51,72 @@ fn ref_silhouette(points: &[Vec<f64>], labels: &[usize]) -> f64 {
 }
 
 pub fn run_silhouette(case: &Case, viols: &mut Sink) -> Cnt {
-    let Case::Silhouette { points, labels, perms: pmode } = case else { unreachable!() };
+    match case {
+        Case::Silhouette { points, labels, perms } => sil_core::<f64>(case, "f64", points, labels, perms, viols),
+        Case::SilhouetteF { float, points, labels, perms } => {
+            if float == "f32" {
+                sil_core::<f32>(case, float, points, labels, perms, viols)
+            } else {
+                sil_core::<f64>(case, float, points, labels, perms, viols)
+            }
+        }
+        _ => unreachable!(),
+    }
+}
+
+fn sil_tol(float: &str) -> f64 {
+    if float == "f32" {
+        1e-4
+    } else {
+        1e-9
+    }
+}
+
+fn sil_subject<F: Float>(rec: ArrayView2<F>, labels: ArrayView1<usize>) -> Result<f64, String> {
+    let ds = DatasetBase::new(rec, labels);
+    match guarded(|| ds.silhouette_score()) {
+        Ok(Ok(v)) => Ok(v.to_f64().unwrap()),
+        Ok(Err(e)) => Err(format!("Err({})", e)),
+        Err(p) => Err(format!("panic: {}", p)),
+    }
+}
+
+fn sil_core<F: Float>(case: &Case, float: &str, points: &[Vec<f64>], labels: &[usize], pmode: &str, viols: &mut Sink) -> Cnt {
     let mut cnt = Cnt::default();
-    if !silhouette_in_domain(points, labels) {
+    let n = points.len();
+    let d = points[0].len();
+    // coordinates as the subject sees them (rounded to F)
+    let pts: Vec<Vec<f64>> = points.iter().map(|p| p.iter().map(|&x| F::cast(x).to_f64().unwrap()).collect()).collect();
+    if !silhouette_in_domain(&pts, labels) {
         cnt.ood += 1;
         cnt.bump("silhouette.labelings_out_of_domain", 1);
         return cnt;
     }
-    let n = points.len();
-    let d = points[0].len();
+    let tol = sil_tol(float);
     cnt.evals += 1;
     cnt.nontrivial += 1;
     cnt.bump("silhouette.cases", 1);
+    if float == "f32" {
+        cnt.bump("silhouette.f32_cases", 1);
+    }
     let nclusters = {
-        let mut l = labels.clone();
+        let mut l = labels.to_vec();
         l.sort();
         l.dedup();
         l.len()
     };
     cnt.bump(if nclusters == 2 { "silhouette.two_clusters" } else { "silhouette.three_or_more_clusters" }, 1);
-    let exp = ref_silhouette(points, labels);
+    let exp = ref_silhouette(&pts, labels);
     let run = |pts: &[Vec<f64>], ls: &[usize]| -> Result<f64, String> {
-        let rec: Array2<f64> = Array2::from_shape_fn((n, d), |(i, j)| pts[i][j]);
-        let ds = DatasetBase::new(rec, Array1::from(ls.to_vec()));
-        match guarded(|| ds.silhouette_score()) {
-            Ok(Ok(v)) => Ok(v),
-            Ok(Err(e)) => Err(format!("Err({})", e)),
-            Err(p) => Err(format!("panic: {}", p)),
-        }
+        let rec: Array2<F> = Array2::from_shape_fn((n, d), |(i, j)| F::cast(pts[i][j]));
+        let l = Array1::from(ls.to_vec());
+        sil_subject::<F>(rec.view(), l.view())
     };
     cnt.bump("silhouette.values_compared", 1);
     let base = run(points, labels);
     match &base {
         Ok(v) => {
-            if !closef(*v, exp, 1e-9, 1e-12, 1.0) {
+            if !closef(*v, exp, tol, tol * 1e-3, 1.0) {
                 report!(viols, "silhouette.wrong_value", case, at("silhouette_score"), "silhouette_score = {}, textbook mean of (b-a)/max(a,b) = {}", v, exp);
             }
         }
@@ -93,7 +126,7 @@ pub fn run_silhouette(case: &Case, viols: &mut Sink) -> Cnt {
         cnt.bump("silhouette.permuted_reruns", 1);
         let r = run(&apply(points, &pm), &apply(labels, &pm));
         let ok = match (&r, &base) {
-            (Ok(a), Ok(b)) => closef(*a, *b, 2e-9, 1e-12, 1.0),
+            (Ok(a), Ok(b)) => closef(*a, *b, 2.0 * tol, tol * 1e-3, 1.0),
             (Err(_), Err(_)) => true,
             _ => false,
         };
@@ -105,7 +138,120 @@ pub fn run_silhouette(case: &Case, viols: &mut Sink) -> Cnt {
     cnt
 }
 
-fn ref_pearson(cols: &[Vec<f64>]) -> Vec<f64> {
+/// memory layouts of the record matrix / the label vector
+pub fn lay_silhouette<F: Float>(outer: &Case, float: &str, points: &[Vec<f64>], labels: &[usize], viols: &mut Sink) -> Cnt {
+    let mut cnt = Cnt::default();
+    let n = points.len();
+    let d = points[0].len();
+    let pts: Vec<Vec<f64>> = points.iter().map(|p| p.iter().map(|&x| F::cast(x).to_f64().unwrap()).collect()).collect();
+    if !silhouette_in_domain(&pts, labels) {
+        cnt.ood += 1;
+        return cnt;
+    }
+    let tol = sil_tol(float);
+    let get = |i: usize, j: usize| F::cast(points[i][j]);
+    let poison = |_: usize, _: usize| F::cast(1e30);
+    let lpoison = |_: usize| 77usize;
+    let b2 = hold2(n, d, &get, &poison, L2::Std);
+    let b1 = hold1(labels, &lpoison, L1::Std);
+    let base = sil_subject::<F>(b2.view(), b1.view());
+    cnt.evals += 1;
+    cnt.nontrivial += 1;
+    cnt.bump("layouts.silhouette_cases", 1);
+    for (rn, rl) in L2_ALL {
+        for (tn, tl) in [L1_ALL[0], L1_ALL[2]] {
+            if rl == L2::Std && tl == L1::Std {
+                continue;
+            }
+            let h2 = hold2(n, d, &get, &poison, rl);
+            let h1 = hold1(labels, &lpoison, tl);
+            let r = sil_subject::<F>(h2.view(), h1.view());
+            cnt.bump("layouts.silhouette_layout_runs", 1);
+            cnt.bump("layouts.values_compared", 1);
+            let ok = match (&r, &base) {
+                (Ok(a), Ok(b)) => {
+                    if a.to_bits() == b.to_bits() {
+                        cnt.bump("layouts.values_bit_identical", 1);
+                    }
+                    closef(*a, *b, 2.0 * tol, tol * 1e-3, 1.0)
+                }
+                (Err(_), Err(_)) => true,
+                _ => false,
+            };
+            if !ok {
+                report!(
+                    viols,
+                    "silhouette.layout_dependence",
+                    outer,
+                    json!({"metric": "silhouette_score", "records_layout": rn, "targets_layout": tn}),
+                    "silhouette_score with the records as {} and the labels as {} = {:?}; standard layout gives {:?}",
+                    rn,
+                    tn,
+                    r,
+                    base
+                );
+            }
+        }
+    }
+    cnt
+}
+
+pub fn lay_pearson<F: Float>(outer: &Case, float: &str, cols: &[Vec<f64>], viols: &mut Sink) -> Cnt {
+    let mut cnt = Cnt::default();
+    let m = cols.len();
+    let n = cols[0].len();
+    let tol = if float == "f32" { 1e-4 } else { 1e-9 };
+    let get = |i: usize, j: usize| F::cast(cols[j][i]);
+    let poison = |_: usize, _: usize| F::cast(1e30);
+    let cols64: Vec<Vec<f64>> = (0..m).map(|j| (0..n).map(|i| get(i, j).to_f64().unwrap()).collect()).collect();
+    if n < 2 || cols64.iter().any(|c| c.iter().all(|x| *x == c[0])) {
+        cnt.ood += 1;
+        return cnt;
+    }
+    let run = |v: ArrayView2<F>| -> Result<Vec<f64>, String> {
+        guarded(|| {
+            let ds = DatasetBase::from(v);
+            ds.pearson_correlation().get_coeffs().iter().map(|x| x.to_f64().unwrap()).collect::<Vec<f64>>()
+        })
+        .map_err(|p| format!("panic: {}", p))
+    };
+    let b = hold2(n, m, &get, &poison, L2::Std);
+    let base = run(b.view());
+    cnt.evals += 1;
+    cnt.nontrivial += 1;
+    cnt.bump("layouts.pearson_cases", 1);
+    for (name, l) in L2_ALL.iter().skip(1) {
+        let h = hold2(n, m, &get, &poison, *l);
+        let r = run(h.view());
+        cnt.bump("layouts.pearson_layout_runs", 1);
+        cnt.bump("layouts.values_compared", 1);
+        let ok = match (&r, &base) {
+            (Ok(a), Ok(b)) => {
+                if a.len() == b.len() && a.iter().zip(b).all(|(x, y)| x.to_bits() == y.to_bits()) {
+                    cnt.bump("layouts.values_bit_identical", 1);
+                }
+                a.len() == b.len() && a.iter().zip(b).all(|(x, y)| closef(*x, *y, 2.0 * tol, 2.0 * tol, 1.0))
+            }
+            (Err(_), Err(_)) => true,
+            _ => false,
+        };
+        if !ok {
+            report!(
+                viols,
+                "pearson.layout_dependence",
+                outer,
+                json!({"metric": "pearson", "records_layout": name}),
+                "pearson coefficients with the records as {} = {:?}; standard layout gives {:?}",
+                name,
+                r,
+                base
+            );
+        }
+    }
+    cnt
+}
+
+pub fn ref_pearson(cols: &[Vec<f64>]) -> Vec<f64> {
     let m = cols.len();
     let n = cols[0].len() as f64;
     let mut out = Vec::new();
